@@ -50,7 +50,6 @@ NOT_APPLICABLE = {
     'C44': 'check not built yet (contracts designed in DESIGN.md section 5, proof not closed in this framework yet)',
     'C45': 'check not built yet (contracts designed in DESIGN.md section 5, proof not closed in this framework yet)',
     'C46': "the bound is on dynamic nesting through user functors and RAII depth guards across task_set/pipeline/future; a ghost depth contract must assume the functor's own scheduling behaviour, i.e. the property itself.",
-    'C47': 'check not built yet (contracts designed in DESIGN.md section 5, proof not closed in this framework yet)',
     'C48': 'check not built yet (contracts designed in DESIGN.md section 5, proof not closed in this framework yet)',
 }
 
@@ -287,3 +286,16 @@ CLAIMED['C38'] = dict(
          "the pinned tree were repaired (fix: commits 2fd2343, d72db5c in known_findings.txt): misaligned heap storage for over-aligned T, and push_back(v[i]) at capacity reading a destroyed "
          "element. Iterator-pair / initializer_list / copy operations are not under contract.",
     technique="CBMC DFCC function contracts over mechanically extracted bodies with storage-handle ghosts (capacity, alignment, live count, released); bounded unwinding for the element loops")
+
+CLAIMED['C47'] = dict(
+    category='proof',
+    text="Invocation-log contracts (CBMC DFCC) on the extracted bodies of every ForceQueuingTag entry point: ThreadPool::forceEnqueue<kPlaced>, ThreadPool::schedule / schedulePlaced with the "
+         "tag (with and without producer token), TaskSet::schedule(f, fq), ConcurrentTaskSet::schedule(f, fq) for both TaskCost branches, ConcurrentTaskSet::schedulePlaced(f, tag) and "
+         "TaskSetBase::scheduleBulkImplForceQueue (loop contract) behind both scheduleBulk(count, gen, tag) overloads. Postcondition for every path, given that the value loaded from numThreads_ "
+         "is >= 1: the submitted functor was invoked 0 times on the calling thread before return and handed to a queue exactly once (bulk: at most count times, none invoked). A call that loses "
+         "the tag resolves to the untagged overload, whose stub may run the functor inline, so the postcondition fails.",
+    note="The queueing primitives behind forceEnqueue (scheduleImpl, scheduleImplPlaced incl. enqueueToCentralQueue and conditionallyWake, scheduleBulkEnqueue) are rendered by their invocation "
+         "sites only (every call of a task/functor object in their text counts as an invocation on the caller) and must contain none; moodycamel enqueue, MpmcRingBuffer::try_push and the wake "
+         "functions are assumed not to invoke the task objects they are given. Overload resolution is read off the call text. Zero-thread pools run the functor inline by design (outside the "
+         "property).",
+    technique="CBMC DFCC function + loop contracts over extracted bodies with an invocation-log ghost; callee entry points by contract replacement")
